@@ -63,6 +63,12 @@ def run(ctx):
     except core.ModelUnavailable:
         ctx.violation("model-unavailable", {"coq_errors": ctx.st.coq_errors[-2000:]}, found_input=False)
         mg = mp = None
+    # the hypothesis of the structure theorem (Proofs/PBuilderShape.pbuild_shape), measured on every generated model
+    try:
+        for d in ctx.model(FAM, ["(503 %s)" % sexp.enc(m) for m in models]):
+            ctx.count("theorem_pshape_applicable" if d and d[0] == 1 else "theorem_pshape_not_applicable")
+    except core.ModelUnavailable:
+        pass
     for k, (m, ls, i) in enumerate(zip(models, labels, impl)):
         if "r" not in i or not i["r"].get("ok"):
             ctx.violation("entry-point-abnormal", {"op": "pgraph", "model": m, "impl": {x: i.get(x) for x in ("panic", "timeout", "bad", "r")}})
